@@ -31,6 +31,7 @@ class Store:
         self.calls = []      # (kind, name)
         self.mutations = []  # (kind, name, bytes|None)
         self.fault = None    # callable(kind, name, index) -> None | raises
+        self.stale_exists = None  # callable(name, index) -> True to answer "missing" for an object that is there
         self.ncalls = 0
 
     def copy(self):
@@ -69,6 +70,8 @@ class _Base(Backend):
     def _do(self, kind, name, *a):
         st = self.store
         if kind == 'exists':
+            if name in st.o and st.stale_exists is not None and st.stale_exists(name, st.ncalls):
+                return False   # eventually consistent store: a stale negative answer
             return name in st.o
         if kind == 'upload':
             data = bytes(a[0])
